@@ -157,7 +157,9 @@ def item_units_special(repo):
 
 def item_inconvertible(repo):
     tree = _parse(repo, "pdtable/proxy.py")
-    return list(ast.literal_eval(_find_assign(tree, "INCONVERTIBLE_UNIT_INDICATORS")[-1]))
+    # only membership matters (`unit in INCONVERTIBLE_UNIT_INDICATORS`): sorted, so that re-ordering the literal or
+    # turning it into a set / tuple does not change the translated constant
+    return sorted(ast.literal_eval(_find_assign(tree, "INCONVERTIBLE_UNIT_INDICATORS")[-1]))
 
 
 def item_safe_methods(repo):
@@ -190,8 +192,16 @@ def item_na_rep(repo):
                     sealant = ast.literal_eval(y.value)
     if sealant is None:
         raise ValueError("sealant not found")
-    return {"na_rep": na, "sealant": sealant, "sealant_test": ast.unparse(
-        [n for n in ast.walk(f) if isinstance(n, ast.If) and "col == 0" in ast.unparse(n.test)][0].test)}
+    test = [n for n in ast.walk(f) if isinstance(n, ast.If) and "col == 0" in ast.unparse(n.test)][0].test
+    # the test as a conjunction: its conjuncts sorted (their order, and the side a constant stands on, mean nothing)
+    parts = test.values if isinstance(test, ast.BoolOp) and isinstance(test.op, ast.And) else [test]
+
+    def canon(e):
+        if isinstance(e, ast.Compare) and len(e.ops) == 1 and isinstance(e.ops[0], ast.Eq) \
+                and isinstance(e.left, ast.Constant) and not isinstance(e.comparators[0], ast.Constant):
+            e = ast.Compare(left=e.comparators[0], ops=e.ops, comparators=[e.left])
+        return ast.unparse(e)
+    return {"na_rep": na, "sealant": sealant, "sealant_test": " and ".join(sorted(canon(e) for e in parts))}
 
 
 def item_bundle_name_regex(repo):
@@ -258,7 +268,8 @@ _C19_FUNCS = [
     ("pdtable/io/load/_orchestrators.py", None, "queued_load"),
     ("pdtable/io/load/_orchestrators.py", None, "load_files"),
 ]
-_C19_OPENERS = {"open", "load_workbook", "ZipFile", "fdopen", "TemporaryFile", "NamedTemporaryFile"}
+_C19_OPENERS = {"open", "load_workbook", "ZipFile", "fdopen", "TemporaryFile", "NamedTemporaryFile",
+                 "SpooledTemporaryFile", "mkstemp", "FileIO", "openpty", "dup"}
 _C19_WRITE_CALLS = {"_table_to_csv", "_append_table_to_openpyxl_worksheet", "_append_table_to_xlsxwriter_worksheet",
                     "save", "write", "write_excel_func"}
 # constructors that create the target file although they are not called `open` (dotted name as written)
@@ -449,8 +460,54 @@ def _c19_scan(fn, helpers=None):
         for ch in ast.iter_child_nodes(node):
             expr(ch, ctx, in_item)
 
+    def has_opener(node):
+        return any(isinstance(n, ast.Call) and (_c19_callee(n) in _C19_OPENERS
+                                                or ast.unparse(n.func) in _C19_OPENERS_DOTTED) for n in ast.walk(node))
+
+    def try_finally_frame(st, nxt):
+        """`x = <opener expression>` immediately followed by `try: … finally: x.close()` (the close optionally under
+        an `if`) is the hand-written spelling of `with <expression> as x:`.  Returns the frame text or None.
+        With a conditional close, an alternative of the expression that is a plain variable is what `nullcontext`
+        does (handed through, not closed); with an unconditional close it is closed: `closing(...)`."""
+        if not (isinstance(st, ast.Assign) and len(st.targets) == 1 and isinstance(st.targets[0], ast.Name)
+                and isinstance(nxt, ast.Try) and nxt.finalbody and has_opener(st.value)):
+            return None
+        x = st.targets[0].id
+        fin = nxt.finalbody
+        conditional = False
+        if len(fin) == 1 and isinstance(fin[0], ast.If) and not fin[0].orelse:
+            conditional, fin = True, fin[0].body
+        if not (len(fin) == 1 and isinstance(fin[0], ast.Expr) and isinstance(fin[0].value, ast.Call)
+                and isinstance(fin[0].value.func, ast.Attribute) and fin[0].value.func.attr == "close"
+                and isinstance(fin[0].value.func.value, ast.Name) and fin[0].value.func.value.id == x
+                and not fin[0].value.args):
+            return None
+        wrap = "nullcontext" if conditional else "closing"
+
+        def alt(v):
+            return wrap + "(" + txt(v) + ")" if isinstance(v, ast.Name) else txt(v)
+        v = st.value
+        if isinstance(v, ast.IfExp):
+            alts = sorted({alt(v.body), alt(v.orelse)})
+            return alts[0] if len(alts) == 1 else "either(" + ", ".join(alts) + ")"
+        return alt(v)
+
     def stmts(body, ctx):
-        for st in body:
+        skip = False
+        for i, st in enumerate(body):
+            if skip:
+                skip = False
+                continue
+            frame = try_finally_frame(st, body[i + 1] if i + 1 < len(body) else None)
+            if frame is not None:
+                t = body[i + 1]
+                inner = list(ctx) + [frame]
+                stmts(t.body, inner)
+                for h in t.handlers:
+                    stmts(h.body, inner)
+                stmts(t.orelse, inner)
+                skip = True                      # the finally's close is the exit of that frame
+                continue
             if isinstance(st, (ast.FunctionDef, ast.AsyncFunctionDef, ast.ClassDef)):
                 continue
             if isinstance(st, (ast.With, ast.AsyncWith)):
@@ -635,14 +692,21 @@ def item_table_handlers(repo):
     exception class `parse_blocks` raises for a key that is not among them"""
     tree = _parse(repo, "pdtable/io/parsers/blocks.py")
     (val,) = _find_assign(tree, "TABLE_HANDLERS")
-    if not isinstance(val, (ast.Tuple, ast.List)):
-        raise ValueError("TABLE_HANDLERS is not a literal tuple")
     pairs = []
-    for e in val.elts:
-        if not (isinstance(e, (ast.Tuple, ast.List)) and len(e.elts) == 2 and isinstance(e.elts[0], ast.Constant)
-                and isinstance(e.elts[0].value, str) and isinstance(e.elts[1], ast.Name)):
-            raise ValueError("TABLE_HANDLERS entry is not (str literal, function name)")
-        pairs.append([e.elts[0].value, e.elts[1].id])
+    if isinstance(val, ast.Dict):
+        items = list(zip(val.keys, val.values))
+    elif isinstance(val, (ast.Tuple, ast.List)):
+        items = []
+        for e in val.elts:
+            if not (isinstance(e, (ast.Tuple, ast.List)) and len(e.elts) == 2):
+                raise ValueError("TABLE_HANDLERS entry is not a pair")
+            items.append((e.elts[0], e.elts[1]))
+    else:
+        raise ValueError("TABLE_HANDLERS is neither a literal tuple of pairs nor a dict literal")
+    for k, v in items:
+        if not (isinstance(k, ast.Constant) and isinstance(k.value, str)):
+            raise ValueError("TABLE_HANDLERS key is not a str literal")
+        pairs.append([k.value, ast.unparse(v)])
     fn = _find_func(tree, "parse_blocks")
     raised = None
     for node in ast.walk(fn):
@@ -774,8 +838,9 @@ def render(vals) -> str:
     L.append("/-- blocks.py `TABLE_HANDLERS`: (output form `to`, handler function); what an unknown `to` raises (C07) -/")
     L.append("def tableHandlers : List (String × String) := [" + ", ".join(
         f"({lean_str(k)}, {lean_str(v)})" for k, v in vals["table_handlers"]["pairs"]) + "]")
+    L.append("/-- the keys alone, sorted: the set of output forms (what `formOf` and the pin theorem use) -/")
     L.append("def tableHandlerKeys : List (List Char) := [" + ", ".join(
-        f"{lean_str(k)}.toList" for k, _ in vals["table_handlers"]["pairs"]) + "]")
+        f"{lean_str(k)}.toList" for k in sorted(k for k, _ in vals["table_handlers"]["pairs"])) + "]")
     L.append(f"def unknownFormRaises : String := {lean_str(vals['table_handlers']['unknown_raises'])}")
     L.append("")
     L.append(f"def csvSep : List Char := {lean_str(vals['csv_sep'])}.toList")
